@@ -287,6 +287,8 @@ def run(ctx):
                      operations=ops, twin_dump=twin.dump())
             break
         t.case(key=(doc, str(ops)) if ops else None, sample={"document": doc, "operations": ops} if len(ops) >= 3 else None)
+    if not t.fail:
+        rm.large_documents(repro, t)
     t.done()
     ctx.level = "other"
     ctx.explanation = ("PROVED from the real AST of debian._util: the OrderedSet that holds the field order of a paragraph without "
